@@ -122,17 +122,11 @@ fn verifier_certs(tier: Tier, out: &mut UnitResult, part: usize, parts: usize) {
         }
     }
     // every single-byte substitution
-    let values: Vec<u8> = match tier {
-        Tier::Quick => vec![0x00, 0xff],
-        Tier::Thorough => (0..=255).collect(),
-    };
+    let values: Vec<u8> = (0..=255).collect();
     for off in (0..x.len()).filter(|o| o % parts == part) {
         let orig = x.as_ref()[off];
-        let mut vs = values.clone();
-        if tier == Tier::Quick {
-            vs.extend([orig ^ 1, orig ^ 0x80, orig.wrapping_add(1)]);
-        }
-        for v in vs {
+        let _ = tier;
+        for v in values.clone() {
             if v == orig {
                 continue;
             }
@@ -464,7 +458,7 @@ impl Check for C01 {
                     continue; // a server cannot run without a certificate
                 }
                 for behaviour in ["complete", "stall", "close_early"] {
-                    u.push(json!({"kind":"system","role":role,"identity":ident,"behaviour":behaviour,"bound": if behaviour == "complete" { tier.pick(1, 2) } else { tier.pick(0, 1) }}));
+                    u.push(json!({"kind":"system","role":role,"identity":ident,"behaviour":behaviour,"bound": if behaviour == "complete" { if tier == Tier::Thorough && matches!(ident, "honest_y" | "replay_x" | "chain_y_then_x") && !role.contains("then") { 3 } else { tier.pick(1, 2) } } else { tier.pick(0, 1) }}));
                 }
             }
         }
